@@ -153,6 +153,83 @@ pub fn child(args: &Args) -> i32 {
             print_init_events();
             0
         }
+        "storm" => {
+            // many threads released by a spin barrier make their FIRST use of the tables at the same instant
+            let n = args.num("n", 32) as usize;
+            let gate = Arc::new(std::sync::atomic::AtomicUsize::new(0));
+            let mut handles = Vec::new();
+            for i in 0..n {
+                let gate = gate.clone();
+                handles.push(std::thread::spawn(move || -> (usize, &'static str, String) {
+                    // every thread of one storm uses the SAME engine: they all touch the same statics directly
+                    let s = Scn { engine: storm_engine(seed), ..scenario(i, seed) };
+                    gate.fetch_add(1, std::sync::atomic::Ordering::SeqCst);
+                    while gate.load(std::sync::atomic::Ordering::SeqCst) < n {
+                        std::hint::spin_loop();
+                    }
+                    let d = with_engine!(s.engine, E, {
+                        // the very first thing after the gate: construct the engine (forces its tables)
+                        let probe = E::mk();
+                        drop(probe);
+                        run_scn::<E>(&Scn { k: 3, r: 2, sb: 64, ..s }, seed + i as u64)
+                    });
+                    (i, s.engine, d)
+                }));
+            }
+            let mut status = 0;
+            for h in handles {
+                match h.join() {
+                    Ok((slot, engine, dig)) => println!("{}", Obj::new().str("ev", "result").int("slot", slot as i64).str("engine", engine).str("dig", &dig).done()),
+                    Err(p) => {
+                        println!("{}", Obj::new().str("ev", "panic").str("msg", &util::panic_message(&*p)).done());
+                        status = 3;
+                    }
+                }
+            }
+            print_init_events();
+            status
+        }
+        "nested" => {
+            // one-shot calls whose input iterators are fed by OTHER threads' concurrent one-shot calls:
+            // independent calls share no state, so this must complete and equal sequential execution
+            let n = args.num("n", 3) as usize;
+            let mut handles = Vec::new();
+            for i in 0..n {
+                handles.push(std::thread::spawn(move || -> (usize, &'static str, String) {
+                    let (k, r, sb) = (4usize, 3usize, 64usize);
+                    let (tx, rx) = mpsc::channel::<Vec<u8>>();
+                    let feeder = std::thread::spawn(move || {
+                        for j in 0..k {
+                            // the shard handed to the outer call is itself the product of an inner one-shot call
+                            let a = util::payload(seed + i as u64, 0x4E, j as u64, sb);
+                            let b = util::payload(seed + i as u64, 0x4F, j as u64, sb);
+                            let inner = reed_solomon_simd::encode(2, 1, [&a, &b]).expect("inner encode");
+                            let restored = reed_solomon_simd::decode(2, 1, [(0usize, &a)], [(0usize, &inner[0])]).expect("inner decode");
+                            assert_eq!(restored[&1], b);
+                            if tx.send(inner[0].clone()).is_err() {
+                                break;
+                            }
+                        }
+                    });
+                    let outer = reed_solomon_simd::encode(k, r, rx.into_iter().take(k)).expect("outer encode");
+                    feeder.join().expect("feeder");
+                    let parts: Vec<&[u8]> = outer.iter().map(Vec::as_slice).collect();
+                    (i, "oneshot-nested", format!("{:016x}", util::fnv_many(parts)))
+                }));
+            }
+            let mut status = 0;
+            for h in handles {
+                match h.join() {
+                    Ok((slot, engine, dig)) => println!("{}", Obj::new().str("ev", "result").int("slot", slot as i64).str("engine", engine).str("dig", &dig).done()),
+                    Err(p) => {
+                        println!("{}", Obj::new().str("ev", "panic").str("msg", &util::panic_message(&*p)).done());
+                        status = 3;
+                    }
+                }
+            }
+            print_init_events();
+            status
+        }
         "race" => {
             let n = args.num("n", 4) as usize;
             let barrier = Arc::new(Barrier::new(n));
@@ -238,6 +315,41 @@ fn expected(n: usize, seed: u64) -> Vec<(usize, String)> {
         v.push((i + 100, d2));
     }
     v
+}
+
+/// Engine of a storm process: Naive (the only engine that touches EXP_LOG and SKEW directly from every
+/// thread) every other time, the others in turn.
+fn storm_engine(seed: u64) -> &'static str {
+    const ORDER: [&str; 8] = ["naive", "nosimd", "naive", "avx2", "naive", "ssse3", "default", "neonemu"];
+    ORDER[(seed / 3) as usize % ORDER.len()]
+}
+
+fn expected_storm(n: usize, seed: u64) -> Vec<(usize, String)> {
+    (0..n)
+        .map(|i| {
+            let s = Scn { engine: storm_engine(seed), ..scenario(i, seed) };
+            (i, with_engine!(s.engine, E, { run_scn::<E>(&Scn { k: 3, r: 2, sb: 64, ..s }, seed + i as u64) }))
+        })
+        .collect()
+}
+
+fn expected_nested(n: usize, seed: u64) -> Vec<(usize, String)> {
+    (0..n)
+        .map(|i| {
+            let (k, r, sb) = (4usize, 3usize, 64usize);
+            let shards: Vec<Vec<u8>> = (0..k)
+                .map(|j| {
+                    let a = util::payload(seed + i as u64, 0x4E, j as u64, sb);
+                    let b = util::payload(seed + i as u64, 0x4F, j as u64, sb);
+                    // sequential: the reference encoder (low rate for 2:1? the rule decides) - use the public API sequentially
+                    reed_solomon_simd::encode(2, 1, [&a, &b]).expect("inner encode")[0].clone()
+                })
+                .collect();
+            let outer = reed_solomon_simd::encode(k, r, &shards).expect("outer encode");
+            let parts: Vec<&[u8]> = outer.iter().map(Vec::as_slice).collect();
+            (i, format!("{:016x}", util::fnv_many(parts)))
+        })
+        .collect()
 }
 
 // ----------------------------------------------------------------------
@@ -339,31 +451,49 @@ pub fn main(args: &Args) -> i32 {
     // ---- races
     let races = args.num("races", 60) as usize;
     let par = args.num("par", 6) as usize;
-    let jobs: Vec<(usize, usize, u64)> = (0..races).map(|i| (i, 2 + (i % 7), seed * 1000 + i as u64)).collect();
-    let results: Vec<(usize, usize, u64, ChildOut)> = std::thread::scope(|sc| {
-        let chunks: Vec<Vec<(usize, usize, u64)>> = (0..par).map(|p| jobs.iter().copied().skip(p).step_by(par).collect()).collect();
-        let hs: Vec<_> = chunks
-            .into_iter()
-            .map(|c| {
-                sc.spawn(move || {
-                    c.into_iter()
-                        .map(|(i, n, s)| {
-                            let o = run_child(&["threads-child".into(), "--mode".into(), "race".into(), "--n".into(), n.to_string(), "--seed".into(), s.to_string()], tmo);
-                            (i, n, s, o)
-                        })
-                        .collect::<Vec<_>>()
+    // three kinds of processes: "race" (mixed engines, hand-overs), "nested" (one-shot calls feeding one-shot
+    // calls), and "storm" (many threads, one engine, simultaneous first use; run two at a time so that the
+    // threads of one storm really run simultaneously on this 16-core host)
+    let storms = args.num("storms", 2 * races as u64) as usize;
+    let mut jobs: Vec<(usize, &'static str, usize, u64)> = Vec::new();
+    for i in 0..races {
+        let mode = if i % 5 == 2 { "nested" } else { "race" };
+        let n = if mode == "nested" { 3 } else { 2 + (i % 7) };
+        jobs.push((i, mode, n, seed * 1000 + i as u64));
+    }
+    let storm_jobs: Vec<(usize, &'static str, usize, u64)> = (0..storms).map(|i| (races + i, "storm", if i % 2 == 0 { 16 } else { 32 }, seed * 1000 + 500 + i as u64)).collect();
+    fn run_jobs(jobs: &[(usize, &'static str, usize, u64)], par: usize, tmo: Duration) -> Vec<(usize, &'static str, usize, u64, ChildOut)> {
+        std::thread::scope(|sc| {
+            let chunks: Vec<Vec<(usize, &'static str, usize, u64)>> = (0..par).map(|p| jobs.iter().copied().skip(p).step_by(par).collect()).collect();
+            let hs: Vec<_> = chunks
+                .into_iter()
+                .map(|c| {
+                    sc.spawn(move || {
+                        c.into_iter()
+                            .map(|(i, mode, n, s)| {
+                                let o = run_child(&["threads-child".into(), "--mode".into(), mode.into(), "--n".into(), n.to_string(), "--seed".into(), s.to_string()], tmo);
+                                (i, mode, n, s, o)
+                            })
+                            .collect::<Vec<_>>()
+                    })
                 })
-            })
-            .collect();
-        hs.into_iter().flat_map(|h| h.join().unwrap()).collect()
-    });
-    let mut results = results;
+                .collect();
+            hs.into_iter().flat_map(|h| h.join().unwrap()).collect()
+        })
+    }
+    let mut results = run_jobs(&jobs, par, tmo);
+    results.extend(run_jobs(&storm_jobs, 2, tmo));
     results.sort_by_key(|x| x.0);
     let mut hangs = 0;
-    for (_, n, s, o) in results {
+    for (_, mode, n, s, o) in results {
         proc_id += 1;
-        trace.line(&Obj::new().str("ev", "proc").int("proc", proc_id).str("kind", "race").str("what", &format!("n={n} seed={s}")).done());
-        let exp = expected(n, s);
+        trace.line(&Obj::new().str("ev", "proc").int("proc", proc_id).str("kind", "race").str("what", &format!("{mode} n={n} seed={s}")).done());
+        let exp = match mode {
+            "storm" => expected_storm(n, s),
+            "nested" => expected_nested(n, s),
+            _ => expected(n, s),
+        };
+        let nexpected = if mode == "race" { 2 * n } else { n };
         for l in &o.lines {
             let mut line = l.replacen('{', &format!("{{\"proc\":{proc_id},"), 1);
             if l.contains("\"ev\":\"result\"") {
@@ -378,9 +508,9 @@ pub fn main(args: &Args) -> i32 {
             hangs += 1;
         }
         let nres = o.lines.iter().filter(|l| l.contains("\"ev\":\"result\"")).count();
-        trace.line(&Obj::new().str("ev", "exit").int("proc", proc_id).str("status", &o.status).int("results", nres as i64).int("expected_results", 2 * n as i64).done());
+        trace.line(&Obj::new().str("ev", "exit").int("proc", proc_id).str("status", &o.status).int("results", nres as i64).int("expected_results", nexpected as i64).done());
     }
     let lines = trace.finish();
-    println!("{{\"events\":{},\"procs\":{},\"races\":{},\"hangs\":{}}}", lines, proc_id, races, hangs);
+    println!("{{\"events\":{},\"procs\":{},\"races\":{},\"storms\":{},\"hangs\":{}}}", lines, proc_id, races, storms, hangs);
     0
 }
